@@ -89,6 +89,8 @@ enum Mix {
     Pooled,
     /// all-repair set delivered one packet per decode() call (the answer after the last packet counts)
     Incremental,
+    /// all-repair set, decoder forced onto the dense matrix back-end (threshold = infinity)
+    Dense,
     /// all-repair set taken from the very top of the 24-bit ESI range (ISI = ESI + K' - K exceeds 2^24 - 1)
     TopEsis,
 }
@@ -99,6 +101,7 @@ fn mix_name(m: Mix) -> &'static str {
         Mix::FewLost => "1-3 lost source symbols",
         Mix::Pooled => "all three mixes pooled",
         Mix::Incremental => "all-repair, delivered packet by packet (one decode call per symbol)",
+        Mix::Dense => "all-repair, decoder forced onto the dense matrix back-end",
         Mix::TopEsis => "all-repair, ESIs from the last 2K+64 ids of the 24-bit range incl. 2^24-1",
     }
 }
@@ -117,11 +120,11 @@ const BOUNDS: [f64; 3] = [1e-2, 1e-4, 1e-5];
 const ALPHA: f64 = 1e-9;
 
 /// Err = the library panicked while producing or decoding the symbols of this set
-fn trial(rng: &mut Rng, enc: &SourceBlockEncoder, src: &[EncodingPacket], cfg: &Oti, K: usize, h: usize, mix: Mix) -> (Result<bool, String>, HashSet<u32>) {
+fn trial(rng: &mut Rng, enc: &SourceBlockEncoder, src: &[EncodingPacket], cfg: &Oti, K: usize, h: usize, mix: Mix, data: &[u8]) -> (Result<bool, String>, HashSet<u32>) {
     let mix = if mix == Mix::Pooled { [Mix::AllRepair, Mix::RandomSurvivors, Mix::FewLost][rng.below(3) as usize] } else { mix };
     let incremental = mix == Mix::Incremental;
     let kept = match mix {
-        Mix::AllRepair | Mix::Incremental | Mix::TopEsis => 0,
+        Mix::AllRepair | Mix::Incremental | Mix::TopEsis | Mix::Dense => 0,
         Mix::RandomSurvivors => rng.below(K as u64) as usize,
         Mix::FewLost => K.saturating_sub(rng.range(1, 3) as usize),
         Mix::Pooled => unreachable!(),
@@ -155,15 +158,26 @@ fn trial(rng: &mut Rng, enc: &SourceBlockEncoder, src: &[EncodingPacket], cfg: &
             pk.push(enc.repair_packets(e - K as u32, 1).pop().unwrap());
         }
         let mut d = SourceBlockDecoder::new(0, cfg, K as u64);
-        if incremental {
-            let mut last = false;
-            for p in pk {
-                last = last || d.decode(std::iter::once(p)).is_some();
-            }
-            return last;
+        if mix == Mix::Dense {
+            d.verif_set_sparse_threshold(u32::MAX);
         }
-        d.decode(pk).is_some()
+        if incremental {
+            let mut last = None;
+            for p in pk {
+                if last.is_none() {
+                    last = d.decode(std::iter::once(p));
+                }
+            }
+            return last.map(|v| v == data);
+        }
+        d.decode(pk).map(|v| v == data)
     });
+    // an answer with wrong bytes is reported like a panic: it is not a decoding *failure*
+    let r = match r {
+        Ok(Some(false)) => Err("the decoder returned a block that differs from the source block".to_string()),
+        Ok(x) => Ok(x.is_some()),
+        Err(m) => Err(m),
+    };
     (r, set)
 }
 
@@ -205,7 +219,7 @@ pub fn run(ctx: &Ctx) -> i32 {
     let quick = ctx.args.quick();
     let scale = ctx.args.ex_u64("scale_pct", 100);
     let mut strata: Vec<Stratum> = vec![];
-    let add = |v: &mut Vec<Stratum>, K: usize, h: usize, mix: Mix, n: u64| v.push(Stratum { K, h, mix, n: (n * scale / 100).max(1000), fails: AtomicU64::new(0), done: AtomicU64::new(0), lost_decodes: AtomicU64::new(0) });
+    let add = |v: &mut Vec<Stratum>, K: usize, h: usize, mix: Mix, n: u64| v.push(Stratum { K, h, mix, n: (n * scale / 100).max(if mix == Mix::Dense { 100 } else { 1000 }), fails: AtomicU64::new(0), done: AtomicU64::new(0), lost_decodes: AtomicU64::new(0) });
     // h = 0
     for &K in &[1usize, 2, 5, 10, 12, 26, 42, 50, 55] {
         for mix in [Mix::AllRepair, Mix::RandomSurvivors, Mix::FewLost] {
@@ -242,6 +256,10 @@ pub fn run(ctx: &Ctx) -> i32 {
             add(&mut strata, K, h, Mix::AllRepair, if quick { 12_000 } else { 150_000 });
         }
     }
+    // mid-size blocks on the dense back-end (more than 64 inactivated columns: several words per packed row)
+    for &K in &[700usize, 1000, 1300] {
+        add(&mut strata, K, 2, Mix::Dense, if quick { 1000 } else { 10_000 });
+    }
     // the top of the 24-bit ESI range on blocks with padding symbols (K < K'): ISIs beyond 2^24 - 1
     for &K in &[1usize, 5, 11, 13, 27, 50, 101] {
         add(&mut strata, K, 0, Mix::TopEsis, if quick { 20_000 } else { 200_000 });
@@ -251,7 +269,7 @@ pub fn run(ctx: &Ctx) -> i32 {
     let chunk = 5000u64;
     let mut items: Vec<(usize, u64)> = vec![];
     for (si, s) in strata.iter().enumerate() {
-        let per = if s.K >= 5000 { 500 } else if s.K >= 400 { 1000 } else { chunk };
+        let per = if s.mix == Mix::Dense { 50 } else if s.K >= 5000 { 500 } else if s.K >= 400 { 1000 } else { chunk };
         for c in 0..s.n.div_ceil(per) {
             items.push((si, c));
         }
@@ -262,7 +280,7 @@ pub fn run(ctx: &Ctx) -> i32 {
     par_for(items.len(), |ii| {
         let (si, c) = items[ii];
         let s = &strata[si];
-        let per = if s.K >= 5000 { 500 } else if s.K >= 400 { 1000 } else { chunk };
+        let per = if s.mix == Mix::Dense { 50 } else if s.K >= 5000 { 500 } else if s.K >= 400 { 1000 } else { chunk };
         let todo = per.min(s.n - c * per);
         let mut rng = Rng::derive(ctx.seed(), 0x0303 + si as u64, c);
         let K = s.K;
@@ -273,7 +291,7 @@ pub fn run(ctx: &Ctx) -> i32 {
         let mut f = 0;
         let mut hs: HashSet<u64> = HashSet::new();
         for _ in 0..todo {
-            let (ok, set) = trial(&mut rng, &enc, &src, &cfg, K, s.h, s.mix);
+            let (ok, set) = trial(&mut rng, &enc, &src, &cfg, K, s.h, s.mix, &data);
             let ok = match ok {
                 Ok(b) => b,
                 Err(m) => {
@@ -281,7 +299,7 @@ pub fn run(ctx: &Ctx) -> i32 {
                     v.sort_unstable();
                     ctx.violation(
                         format!("C03 panic K={K} h={} {}", s.h, short(&m, 60)),
-                        format!("K={K}, {} distinct symbols ({}): producing / decoding this set panicked instead of answering: {}", K + s.h, mix_name(s.mix), short(&m, 160)),
+                        format!("K={K}, {} distinct symbols ({}): producing / decoding this set did not end in None or the source block: {}", K + s.h, mix_name(s.mix), short(&m, 160)),
                         J::obj(vec![("K", J::i(K)), ("esis", J::A(v.iter().map(|&e| J::i(e)).collect()))]),
                     );
                     false
@@ -334,7 +352,7 @@ pub fn run(ctx: &Ctx) -> i32 {
     for s in &strata {
         let (n, k) = (s.done.load(Relaxed), s.fails.load(Relaxed));
         total += n;
-        if s.h >= 3 || s.mix == Mix::TopEsis {
+        if s.h >= 3 || s.mix == Mix::TopEsis || s.mix == Mix::Dense {
             // decided on the pooled count below (h >= 3) / by the panic and rank oracles only (TopEsis:
             // a fixed corner of the id space, not a draw from the advertised distribution)
             if s.h >= 3 {
